@@ -116,6 +116,8 @@ Step ==
                /\ UNCHANGED <<scen, shape, vec, isRead, nonblock, before, total, lastResp, sawBlock, sawEof, wWaits, readerIn>>
        [] ev = "died" -> /\ Viol(r.how, r.msg) /\ nviol' = nviol + 1
                          /\ UNCHANGED <<scen, shape, vec, isRead, nonblock, before, total, lastResp, sawBlock, sawEof, inCall, wWaits, readerIn>>
+       \* (duplex scenarios) the descriptor is closed under the parked reader: NioShared!CloseFd
+       [] ev \in {"close_b", "close_e"} -> UNCHANGED vars2
        [] ev = "nend" -> UNCHANGED vars2
 Spec == Init /\ [][Step]_vars
 Accepted == /\ PrintT(<<"ACCEPT", TLCGet("stats").diameter - 1, N>>)
